@@ -497,6 +497,12 @@ impl LiveActor {
         match result {
             Err(ConnectError::RemoteAbort(AbortReason::AlreadySyncing)) => {
                 debug!(?reason, "remote abort, already syncing");
+                // Usually the remote's request has taken (or will take) over our slot. If we still
+                // hold it for this declined request, give it up, or we would never sync with this
+                // peer again.
+                if self.state.connect_declined(&namespace, peer) {
+                    self.sync_with_peer(namespace, peer, SyncReason::Resync);
+                }
             }
             res => {
                 self.on_sync_finished(
